@@ -133,16 +133,18 @@ type entry struct {
 }
 
 type plan struct {
-	chunk int  // events per Apply while replaying
-	mid   int  // deliver an intermediate Commit after this many deliveries (0 = none)
-	fin   bool // deliver the final Commit(end) before ChangeRole(ready)
+	chunk int    // events per Apply while replaying
+	mid   int    // deliver an intermediate Commit after this many deliveries (0 = none)
+	fin   bool   // deliver the final Commit(end) before ChangeRole(ready)
+	cut   uint64 // != 0: seed; payloads are cut at arbitrary 4-byte positions of the stream (partial records carried over)
 }
 
 type mockBinlog struct {
 	mu           sync.Mutex
 	entries      []entry
 	length       int64
-	durable      int64 // highest offset ever announced through Commit (the fsynced prefix)
+	durable      int64   // highest offset ever announced through Commit (the fsynced prefix)
+	announced    []int64 // every offset announced through Commit so far (carried over a crash by the harness)
 	eng          binlog.Engine
 	replica      bool
 	failNext     bool
@@ -205,10 +207,16 @@ func (m *mockBinlog) Run(offset int64, snapshotMeta []byte, controlMeta []byte, 
 		return fmt.Errorf("verif: engine asked to start at %d which is not a record boundary of the binlog", offset)
 	}
 	deliveries := 0
+	var cutRng *verifx.Rng
+	if m.plan.cut != 0 {
+		cutRng = verifx.NewRng(m.plan.cut)
+	}
+	forceWhole := false
 	mid := func() error {
 		deliveries++
 		if m.plan.mid > 0 && deliveries == m.plan.mid {
 			m.rec = append(m.rec, fmt.Sprintf("> d-commit %d", pos))
+			m.announced = append(m.announced, pos)
 			err := engine.Commit(pos, meta(pos), pos)
 			if pos > m.durable {
 				m.durable = pos
@@ -229,7 +237,37 @@ func (m *mockBinlog) Run(offset int64, snapshotMeta []byte, controlMeta []byte, 
 			}
 			pos = m.entries[i].end
 			i++
+		} else if cutRng != nil && !forceWhole && cutRng.Chance(2, 3) {
+			// what fsbinlog's reader does: it hands the engine whatever its buffer holds, cut anywhere (4-byte aligned);
+			// the engine consumes the complete leading events and says how far it got
+			remaining := int(m.length - pos)
+			n := 4 * (1 + cutRng.Intn(remaining/4))
+			var payload []byte
+			for j := i; j < len(m.entries) && len(payload) < n; j++ {
+				payload = append(payload, m.entries[j].raw...)
+			}
+			payload = payload[:n]
+			m.rec = append(m.rec, fmt.Sprintf("> d-buf %d", n))
+			ret, err := engine.Apply(payload)
+			m.rec = append(m.rec, fmt.Sprintf("< ret=%d e=%s", ret, errName(err)))
+			if err != nil && errName(err) == "err" {
+				return err
+			}
+			if ret == pos {
+				forceWhole = true // nothing consumed: the reader reads more; make sure the replay advances
+			} else {
+				j := i
+				for j < len(m.entries) && m.entries[j].end <= ret {
+					j++
+				}
+				if j == i || m.entries[j-1].end != ret {
+					return fmt.Errorf("verif: engine consumed up to %d which is not a record boundary", ret)
+				}
+				pos = ret
+				i = j
+			}
 		} else {
+			forceWhole = false
 			j := i
 			var payload []byte
 			for j < len(m.entries) && m.entries[j].ev && j-i < m.plan.chunk {
@@ -251,6 +289,7 @@ func (m *mockBinlog) Run(offset int64, snapshotMeta []byte, controlMeta []byte, 
 	}
 	if m.plan.fin {
 		m.rec = append(m.rec, fmt.Sprintf("> d-commit %d", pos))
+		m.announced = append(m.announced, pos)
 		err := engine.Commit(pos, meta(pos), pos)
 		if pos > m.durable {
 			m.durable = pos
@@ -321,6 +360,7 @@ func (m *mockBinlog) RequestShutdown() {
 }
 
 func (m *mockBinlog) commit(k int64) error {
+	m.announced = append(m.announced, k)
 	if k > m.durable {
 		m.durable = k
 	}
@@ -419,7 +459,12 @@ func (s *stepper) open(entries []entry, durable int64, p plan) error {
 	if err := os.MkdirAll(filepath.Dir(s.dbPath()), 0o755); err != nil {
 		return err
 	}
+	var ann []int64
+	if s.m != nil {
+		ann = append(ann, s.m.announced...)
+	}
 	s.m = newMock(entries, durable, s.repl, p)
+	s.m.announced = ann
 	mode := sqlite.NoWaitCommit
 	if s.wait {
 		mode = sqlite.WaitCommit
@@ -787,6 +832,36 @@ func (s *stepper) opSkip(n int) {
 	s.dump(fmt.Sprintf("ret=%d e=%s", ret, errName(err)))
 }
 
+// opView: what a reader's View callback observes right now
+func (s *stepper) opView() {
+	s.h.Op("view")
+	s.h.Stat("op.view", 1)
+	var cr []int
+	var co int64
+	err := s.e.View(context.Background(), "v", func(c sqlite.Conn) error {
+		var err error
+		cr, co, err = readState(c)
+		return err
+	})
+	if err != nil {
+		s.h.Obs("view-error")
+		return
+	}
+	s.h.Obs("%s@%d", verifx.List(cr), co)
+	if !s.m.isBoundary(co) || !eq(cr, s.m.evsUpTo(co)) {
+		s.h.Viol("view-not-prefix", "a reader saw rows %v with stored offset %d, the binlog prefix up to %d holds %v", cr, co, co, s.m.evsUpTo(co))
+	}
+	announced := co == 0
+	for _, k := range s.m.announced {
+		if co <= k {
+			announced = true
+		}
+	}
+	if !announced {
+		s.h.Viol("db-ahead-of-binlog", "a reader saw offset %d, no Commit announced so far covers it (announced %v)", co, s.m.announced)
+	}
+}
+
 func (s *stepper) opHold(on bool) {
 	v := 0
 	if on {
@@ -920,7 +995,11 @@ func (s *stepper) opCrash(d int64, p plan) {
 }
 
 func (s *stepper) randPlan() plan {
-	return plan{chunk: s.r.Range(1, 3), mid: s.r.Pick(3, 1, 1, 1), fin: !s.r.Chance(1, 6)}
+	p := plan{chunk: s.r.Range(1, 3), mid: s.r.Pick(3, 1, 1, 1), fin: !s.r.Chance(1, 6)}
+	if s.r.Bool() {
+		p.cut = s.r.U64() | 1
+	}
+	return p
 }
 
 func (s *stepper) pickBoundary(lo, hi int64) (int64, bool) {
@@ -1032,7 +1111,7 @@ func runStepCase(h *verifx.H, i int, r *verifx.Rng) {
 		ci := s.e.VerifCommittedOffset()
 		switch {
 		case s.repl:
-			switch r.Pick(8, 3, 5, 2, 2, 2, 1) {
+			switch r.Pick(8, 3, 5, 2, 2, 2, 1, 2) {
 			case 0:
 				n := r.Range(1, 3)
 				var evs [][2]int
@@ -1063,9 +1142,11 @@ func runStepCase(h *verifx.H, i int, r *verifx.Rng) {
 				crashes++
 			case 6:
 				s.opClose()
+			case 7:
+				s.opView()
 			}
 		default:
-			weights := []int{10, 2, 1, 2, 2, 2, 6, 4, 3, 1, 3}
+			weights := []int{10, 2, 1, 2, 2, 2, 6, 4, 3, 1, 3, 2}
 			if !s.wait {
 				weights[7] = 0 // no commit timer in NoWaitCommit mode
 			} else {
@@ -1106,6 +1187,8 @@ func runStepCase(h *verifx.H, i int, r *verifx.Rng) {
 				s.opClose()
 			case 10:
 				s.opDoNow(s.newID(), s.randLen(), s.randExtra())
+			case 11:
+				s.opView()
 			}
 		}
 	}
